@@ -4,6 +4,8 @@ from vlib import h264gen as g
 from vlib.bitgen import hx, nal_src, chunkings
 
 ID = "C06"
+# the property speaks about accepted inputs (values / invariants); which error a rejected input gets is not part of it
+ERROR_IDENTITY_IRRELEVANT = True
 RULE = ("conforming slice headers for every slice type 0..9 x NAL type {1,5} x nal_ref_idc 0..3 under contexts whose SPS/PPS "
         "flags select every conditional branch (separate colour planes, frame/field/MBAFF, POC type 0/1/2 with/without "
         "always-zero deltas, bottom-field POC flag, redundant count, weighted pred / bipred idc 0..3, CABAC, deblocking "
